@@ -60,6 +60,8 @@ type c33Peer struct {
 	p        *network.Peer
 	queue    []*c33Send
 	joined   bool
+	ctlSeen  bool
+	ctlEpoch int // validator-set epoch when the node began attaching this peer
 }
 
 type c33Msg struct {
@@ -193,16 +195,21 @@ func runC33(rc *kit.RunCtx) {
 	}
 
 	// ---- application callbacks (observation point)
-	delivered := 0
+	// Arrivals through different peers interleave at the lock sites of the instrumented network code
+	// (every mutex acquisition in pool.go / set.go / p2p.go is a scheduling point), so the callback
+	// accounts per arriving peer, not globally.
 	floodDelivered := 0
-	var lastPkt *network.Packet
-	var lastPeer *network.Peer
+	cbCount := map[*network.Peer]int{}
+	cbLast := map[*network.Peer]*network.Packet{}
 	for _, pi := range c33Protos {
 		p2p.VerifSetCb(pi, func(pkt *network.Packet, p *network.Peer) {
-			delivered++
-			lastPkt, lastPeer = pkt, p
+			cbCount[p]++
+			cbLast[p] = pkt
 		})
 	}
+	// even = the validator set is stable, odd = a change is in progress
+	setEpoch := 0
+	defer s.installLockHooks()()
 
 	// ---- messages
 	var msgs []*c33Msg
@@ -420,6 +427,9 @@ func runC33(rc *kit.RunCtx) {
 				}
 				v := pkt.VerifView()
 				if v.Protocol == module.ProtoP2P {
+					if !p.ctlSeen {
+						p.ctlSeen, p.ctlEpoch = true, setEpoch
+					}
 					p.p.VerifDeliver(pkt)
 					jn := p.p.ConnType() != 0
 					if jn != p.joined {
@@ -450,13 +460,18 @@ func runC33(rc *kit.RunCtx) {
 				validator := truthV[string(p.id)]
 				protoKnown := !(p.noProto2 && m.spec.pi == c33Protos[1].Uint16())
 				originatorBroadcast := m.flood && m.spec.dest == destAny && srcIsPeer
-				before := delivered
+				before := cbCount[p.p]
+				e0, del0 := setEpoch, m.delivered
 				p.p.VerifDeliver(pkt)
-				d := delivered - before
+				d := cbCount[p.p] - before
+				// role-dependent verdicts only when the validator set did not change while the packet was being handled
+				stable := e0 == setEpoch && e0%2 == 0
+				// another arrival of the same message may have been handled in between (then this one is legitimately suppressed)
+				overtaken := m.delivered != del0
 				if !bulk {
 					rc.Event("arr peer%d msg%d %s srcIsPeer=%v joined=%v validator=%v -> delivered=%d", p.idx, m.n, m.kind, srcIsPeer, joined, validator, d)
 				}
-				if d > 1 || (d == 1 && (lastPkt != pkt || lastPeer != p.p)) {
+				if d > 1 || (d == 1 && cbLast[p.p] != pkt) {
 					rc.Violate("callback-misuse", m.kind, "callback invoked %d times / with another packet for one arrival", d)
 					failed = true
 					return
@@ -469,7 +484,7 @@ func runC33(rc *kit.RunCtx) {
 							m.n, m.kind, m.spec.dest, m.spec.ttl, c33Who(m.spec.src, nodeID, extID, peers), p.idx)
 						failed = true
 						return
-					case originatorBroadcast && !validator:
+					case originatorBroadcast && !validator && stable:
 						rc.Violate("unauthorized-originator-delivered", sig, "broadcast msg%d arrived directly from its source peer%d, which does not hold the validator role (claimed role %d), and was delivered",
 							m.n, p.idx, p.claim)
 						failed = true
@@ -490,11 +505,18 @@ func runC33(rc *kit.RunCtx) {
 					}
 				} else {
 					// identical copies of a message already delivered are a don't-care here (flooded: must not; one-hop: may)
-					must := joined && !selfSrc && protoKnown && m.delivered == 0
+					must := joined && !selfSrc && protoKnown && m.delivered == 0 && !overtaken && stable
 					if m.flood {
 						if originatorBroadcast {
 							// a peer certainly holds the role if it is in the validator set and announced the role
 							must = must && validator && p.claim&roleRootBit != 0
+							if must && p.ctlEpoch != setEpoch {
+								// the validator set changed while or after this peer was attached: the role the node
+								// resolved for it at that time may legitimately be the old one (C33 only forbids
+								// deliveries; it does not promise that a role change is seen at once)
+								must = false
+								rc.Probe("observation_role_resolved_before_set_change")
+							}
 						}
 					} else {
 						must = must && srcIsPeer
@@ -533,8 +555,10 @@ func runC33(rc *kit.RunCtx) {
 					ids = append(ids, network.NewPeerID(id))
 				}
 			}
+			setEpoch++
 			truthV = change.set
 			p2p.VerifAllowed(module.RoleValidator).ClearAndAdd(ids...)
+			setEpoch++
 			rc.Event("validator set changed (%d members)", len(ids))
 			rc.Probe("validator_set_changed")
 		})
